@@ -533,10 +533,19 @@ func c06OracleMap(run *Run, m map[string]interface{}, usenum bool, prefix, inden
 // NewMapJson accepts exactly the inputs whose first value encoding/json decodes as an object (or array,
 // wrapped under "object") and returns the same value.
 func c06OracleDec(run *Run, b []byte) {
+	c06OracleDecN(run, b, false)
+	c06OracleDecN(run, b, true) // with JsonUseNumber numbers keep their exact text, in objects and in top-level arrays alike
+}
+
+func c06OracleDecN(run *Run, b []byte, usenum bool) {
 	run.sum.OracleEvals++
-	got := c06NewMapJson(b, false)
+	got := c06NewMapJson(b, usenum)
 	var v interface{}
-	err := json.NewDecoder(bytes.NewReader(b)).Decode(&v)
+	dec := json.NewDecoder(bytes.NewReader(b))
+	if usenum {
+		dec.UseNumber()
+	}
+	err := dec.Decode(&v)
 	var want interface{}
 	switch x := v.(type) {
 	case map[string]interface{}:
@@ -559,6 +568,9 @@ func c06OracleDec(run *Run, b []byte) {
 		return
 	}
 	key := "acceptance"
+	if usenum {
+		key = "acceptance-usenumber"
+	}
 	switch {
 	case got.Panicked:
 		key = "panic"
@@ -569,7 +581,7 @@ func c06OracleDec(run *Run, b []byte) {
 	if want != nil {
 		wantS = canon(want)
 	}
-	run.violation(Violation{Key: key, What: "NewMapJson does not agree with encoding/json on the first value", Input: c06Case{Kind: "dec", S: b},
+	run.violation(Violation{Key: key, What: "NewMapJson does not agree with encoding/json on the first value", Input: c06Case{Kind: "dec", S: b, UseNum: usenum},
 		Got: c06Text(got), Want: wantS})
 }
 
@@ -588,7 +600,7 @@ func c06Add(run *Run, c c06Case, nontrivial bool) {
 
 var c06Docs = []string{" [1]", "[1] x", "null", `{"a":1e400}`, "", "[]", "[", "{}", " {}", "\n[1,2]", `{"a":1}{"b":2}`, `[1]{"a":2}`, "nul",
 	`"s"`, "1", "true", `{"a":1,}`, `{"a":1} x`, ` {"a":[1,{"b":null}]} `, "[[]]", `[{"a":1},2]`, "[1,2", "]", "{", `{"a"}`, "\t\r\n", " null", "[null]",
-	`{"a":"` + "\\" + `u003c"}`, `{"a":"<"}`, `["` + "\\" + `ud83d` + "\\" + `ude00"]`, `{"a":1,"a":2}`, "\xef\xbb\xbf{}", "[1]\n", "[1] ", "[] []", `{"object":1}`}
+	`{"a":"` + "\\" + `u003c"}`, `{"a":"<"}`, `["` + "\\" + `ud83d` + "\\" + `ude00"]`, `{"a":1,"a":2}`, `[12345678901234567890, 1.10, 1E2, -0]`, `{"n":12345678901234567890,"l":[1.10]}`, "\xef\xbb\xbf{}", "[1]\n", "[1] ", "[] []", `{"object":1}`}
 
 func runC06(cfg runCfg) error {
 	r := newRng(cfg.seed)
@@ -725,6 +737,15 @@ func runC06(cfg runCfg) error {
 			c06Add(run, c06Case{Kind: "dec", S: d}, true)
 			c06OracleDec(run, d)
 		}
+	}
+	// results kept across calls (a returned slice must never alias memory a later call re-uses)
+	for k := 0; k < cfg.n/40+5; k++ {
+		hr := newRng(cfg.seed*7919 + int64(k))
+		var ms []map[string]interface{}
+		for q := 0; q < 3+hr.Intn(3); q++ {
+			ms = append(ms, map[string]interface{}{hr.pick(keyPool): hr.pick([]string{"<a&b>", "x", "longer value with <, > and &", "\\u003c"}), "n": float64(hr.Intn(1000)), "l": []interface{}{hr.pick(strPool), hr.pick(strPool)}})
+		}
+		runHeld(run, heldCase{Kind: "held-results", Enc: []string{"Json", "JsonSafe", "JsonIndent"}, Maps: ms})
 	}
 	return run.finish()
 }
